@@ -2,6 +2,14 @@
 COMMON = ["records are written by the harness from the real loader / runner; TLC evaluates the predicates of PCPlan / PCConfig on every record",
           "text-shaped inputs are token sequences rendered to YAML by the harness; the expected text is computed by the specification by concatenation"]
 PROPS = {
+    "C13": dict(sub="scale", args=["-only", "scale"], trace_spec="PCConfigTrace", prefix=["C13_"], start='"kind":',
+                rule="sequences of 3 scale requests over targets {1,2,3,9,10,11} (thorough: also 99,100,101) incl. n<1, unknown / stale names, current value, "
+                     "addressing by replica name; templates over PC_REPLICA_NUM in command/description/log_location/probe; some replicas already finished",
+                assumptions=COMMON + ["scripted commanders are the ground truth for which replica's command is alive / was signalled"]),
+    "C14": dict(sub="scale", args=["-only", "update"], trace_spec="PCConfigTrace", prefix=["C14_"], start='"kind":',
+                rule="projects of 2-4 processes + an anchor; up to 3 successive updates; each process removed / changed in 1-2 launch-relevant fields "
+                     "(command, entrypoint, environment, working_dir, readiness probe, restart policy, shutdown signal, depends_on) / cosmetic / same; processes added",
+                assumptions=COMMON + ["a difference confined to the description is accepted either way (counted as cosmetic)"]),
     "C07": dict(sub="plan", trace_spec="PCConfigTrace", prefix=["C07_"], start='"kind":',
                 rule="all digraphs (self loops included) on <=3 nodes x3 loads, loop-free digraphs on 4 nodes (sample; all in thorough), dangling edges, "
                      "acyclic graphs x requested subsets x no-deps x disabled/foreground/replica markings, random graphs on 3-8 nodes",
